@@ -66,6 +66,8 @@ SHAPES = {
     "clarkBroken": ("", "<x>{urn:q</x>"),
     "xsiClarkBroken": ("", f'<x {XSI} xsi:type="{{urn:q">5</x>'),
     "clark": ("", "<x>{urn:q}n</x>"),
+    "leafThenText": ("", "<x><v>1</v></x>stray"),
+    "textLeafText": ("", "lead<x><v>1</v></x>mid<zz/>tail"),
 }
 
 MODELS = dict(pm.SHAPE_MODELS)
@@ -77,6 +79,9 @@ from xml.etree.ElementTree import QName as _QName
 
 MODELS["qname"] = dataclasses.make_dataclass(
     "KQName", [("x", Optional[_QName], dataclasses.field(default=None, metadata={"type": "Element"}))])
+MODELS["modelAndWildcard"] = dataclasses.make_dataclass(
+    "KModelAndWildcard", [("x", Optional[pm.SLeaf], dataclasses.field(default=None, metadata={"type": "Element"})),
+                          ("rest", list[object], dataclasses.field(default_factory=list, metadata={"type": "Wildcard", "namespace": "##any"}))])
 _WRAP: dict = {}
 
 
